@@ -225,5 +225,12 @@ fn main_run_and_report(context: ValidationContext, sync_validators: Vec<Box<dyn 
     proof { lemma_vmap(violations@); }
 //@end
 
+// INTERIM (being replaced by unit V8p): `with_printable_paths` of src/main.rs as a trusted stub
+pub uninterp spec fn printable_spec(m: Map<PathBuf, Vec<serde_json::Value>>) -> Map<String, Vec<serde_json::Value>>;
+#[verifier::external_body]
+pub fn with_printable_paths(report: HashMap<PathBuf, Vec<serde_json::Value>>) -> (r: HashMap<String, Vec<serde_json::Value>>)
+    ensures r@ == printable_spec(report@)
+{ unimplemented!() }
+
 } // verus!
 fn main() {}
